@@ -53,7 +53,7 @@ class ListdirProxy(object):
 
 
 def run_tape(tape):
-    with seams.deterministic(tape) as clock:
+    with seams.deterministic(tape, scrambled_ids=True) as clock:
         with seams.rebind([('playback.tape_cassettes.file_based.file_based_tape_cassette', 'os', ListdirProxy(tape))]):
             run = Run(PROP)
             stores = []
